@@ -1399,9 +1399,70 @@ func runRandomChunk(r *mon.Report, tier string, idx int, rng *rand.Rand) {
 		runRandomAlgebra(r, rng)
 		runRandomCompat(r, rng)
 		runPodVsNode(r, rng, nil, nil, 10)
+		runLabelMap(r, rng)
 	}
 	r.Eval()
 	r.Sig("random-chunk-%d", idx)
+}
+
+// ---- construction from a label map (NewLabelRequirements for node labels, NewStrictPodRequirements for a nodeSelector): a
+// map is the conjunction of key=value over its entries; deprecated aliases are normalised to the stable key, so an alias
+// and its stable key constrain the SAME key. Equal values: exactly that value is admitted. Different values: no value is
+// admitted (whether the empty set may pass for "label absent" is the recorded representation finding, not judged here). ----
+
+var lmKeys = []string{"kubernetes.io/arch", "beta.kubernetes.io/arch", keyZone, keyZoneAlias, "node.kubernetes.io/instance-type", "beta.kubernetes.io/instance-type",
+	"kubernetes.io/os", "beta.kubernetes.io/os", "example.com/k"}
+var lmVals = []string{"a", "b", "c"}
+
+func runLabelMap(r *mon.Report, rng *rand.Rand) {
+	L := map[string]string{}
+	for _, k := range lmKeys {
+		if rng.Intn(2) == 0 {
+			L[k] = lmVals[rng.Intn(len(lmVals))]
+		}
+	}
+	want := map[string]map[string]bool{} // stable key -> values assigned to it
+	for k, v := range L {
+		st := k
+		if c, ok := aliasTable[k]; ok {
+			st = c
+		}
+		if want[st] == nil {
+			want[st] = map[string]bool{}
+		}
+		want[st][v] = true
+	}
+	pod := &corev1.Pod{ObjectMeta: metav1.ObjectMeta{Name: "p", Namespace: "default"}, Spec: corev1.PodSpec{NodeSelector: L}}
+	for ctor, reqs := range map[string]scheduling.Requirements{"NewLabelRequirements": scheduling.NewLabelRequirements(L), "NewStrictPodRequirements(nodeSelector)": scheduling.NewStrictPodRequirements(pod)} {
+		r.Inc("label_map_constructions")
+		for st, vals := range want {
+			if len(vals) > 1 {
+				r.Inc("label_map_keys_with_conflicting_alias_values")
+			}
+			if !reqs.Has(st) {
+				r.Violate("label-map-construction:key-missing", fmt.Sprintf("%s(%v) has no requirement on %s", ctor, L, st), map[string]any{"labels": L}, nil)
+				continue
+			}
+			q := reqs.Get(st)
+			for _, v := range append(append([]string{}, lmVals...), "zz") {
+				admit := len(vals) == 1 && vals[v]
+				if q.Has(v) != admit {
+					r.Violate("label-map-construction:wrong-value-set", fmt.Sprintf("%s(%v): requirement on %s (%s) admits %q = %v, the conjunction of the map's entries on that key (%v) says %v",
+						ctor, L, st, q.String(), v, q.Has(v), keysOf(vals), admit), map[string]any{"labels": L, "constructor": ctor}, nil)
+					return
+				}
+			}
+		}
+	}
+}
+
+func keysOf(m map[string]bool) []string {
+	var out []string
+	for k := range m {
+		out = append(out, k)
+	}
+	sort.Strings(out)
+	return out
 }
 
 // ---- canonical scenarios (case 0): the everyday shapes of the probe-confirmed suspicions, so that the primary
